@@ -301,7 +301,7 @@ class Check(DiffCheck):
             return out
         mt = self.gen_mt(ctx['tier'], ctx['rng'])
         env = DiffCheck.impl_env(self)
-        got = self.run_retry(exe, mt, tmp, 'mt', nshards=min(len(mt), 6), timeout=900, env=env)   # a run takes seconds; a call() that never returns must not cost hours
+        got = self.run_retry(exe, mt, tmp, 'mt', nshards=min(len(mt), 6), timeout=240, env=env)   # a run takes seconds; a call() that never returns must not cost hours
         ntasks = 0
         for c, g in zip(mt, got):
             o = self.mt_oracle(c, g)
